@@ -284,7 +284,25 @@ def make_genfunc(ops, mon, label, decorated, ret=None):
         return r
 
     if decorated and mon.decorated:
-        wrapped = eliot_friendly_generator_function(body)
+        # what gets decorated is a generator function, or something that merely returns its generator: a functools.wraps pass-through
+        # around it, an object whose __call__ does, a lambda
+        kind = sum(map(ord, label)) % 4
+        if kind == 1:
+            import functools
+
+            @functools.wraps(body)
+            def target(*a, **kw):
+                return body(*a, **kw)
+        elif kind == 2:
+            class _Factory(object):
+                def __call__(self):
+                    return body()
+            target = _Factory()
+        elif kind == 3:
+            target = lambda: body()  # noqa: E731
+        else:
+            target = body
+        wrapped = eliot_friendly_generator_function(target)
 
         def starter():
             # for nested decorated sub-generators the expected base is the enclosing generator's current top
